@@ -239,6 +239,10 @@ class TreeFn(Generic[_FnT, _T]):
       self, input_iterator: Iterator[tree.TreeLike], ignore_error: bool = False
   ) -> Iterator[tree.TreeLike[_T]]:
     """Iterates through the input_iterator and calls the function."""
+    if ignore_error and self.fn_batch_size:
+      # Skips the failing inputs before they reach the rebatching generator,
+      # which an exception passing through would terminate.
+      input_iterator = iter_utils.iter_ignore_error(input_iterator)
     fn_inputs = map(self._get_inputs, input_iterator)
     if self.fn_batch_size:
       fn_inputs = iter_utils.rebatched_args(
